@@ -87,6 +87,7 @@ class BaseProp:
         t_end = time.time() + budget_s
         best = v
         n = 0
+        check = getattr(self, "check_for_minimise", None) or self.check_single
         improved = True
         while improved and time.time() < t_end and n < max_exec:
             improved = False
@@ -95,7 +96,7 @@ class BaseProp:
                 if time.time() >= t_end or n >= max_exec:
                     break
                 try:
-                    got = self.check_single(cand_case, cand_sched, best["sig_id"])
+                    got = check(cand_case, cand_sched, best["sig_id"])
                 except Exception:
                     got = None
                 if got is not None:
@@ -131,3 +132,13 @@ class BaseProp:
             return {"fails": False}
         return {"fails": True, "signature": got["signature"], "detail": got["detail"],
                 "violation": got}
+
+
+def simpler_policies(sched):
+    """Strictly simpler schedules to try while shrinking: lo < hi < anything else (no ping-pong)."""
+    pol, ov = sched["policy"], sched.get("overrides")
+    if pol == "lo" and not ov:
+        return ()
+    if pol == "hi" and not ov:
+        return ("lo",)
+    return ("lo", "hi")
